@@ -71,6 +71,7 @@ Outcome run_case(const json& c, const std::string& prop) {
 
     // ---- fresh state --------------------------------------------------------
     eng.clear_definitions();
+    eng.clear_probe_defs();
     eng.unregister_classes();
     eng.reset_tables();
     Eng::install_handler();
@@ -144,6 +145,11 @@ Outcome run_case(const json& c, const std::string& prop) {
         s.meths.push_back(ms);
     }
     (void)left_out_in_defs;
+
+    // the probe definitions of the classes registered in this phase
+    eng.register_probe_defs(
+        [&](int k) { return k != left_out && !is_late(k); });
+    Probes<P>::enabled = true;
 
     // ---- update -------------------------------------------------------------
     bool left_out_is_base = false;
@@ -334,6 +340,26 @@ Outcome run_case(const json& c, const std::string& prop) {
                         break;
                     }
                 }
+                if ((focus.args || focus.vptr) && g_log.size() == 1) {
+                    // a call made through the pointer the definition
+                    // received dispatches on the object's own class
+                    auto& rec = g_log[0];
+                    std::size_t vi = 0;
+                    for (std::size_t p = 0; p < me.shape.size(); ++p) {
+                        if (me.shape[p] < 0) {
+                            continue;
+                        }
+                        if (rec.args[p].probe >= 0 &&
+                            rec.args[p].probe != t[vi]) {
+                            o.fail("typed-arg-redispatch: " + where +
+                                   ": a call made through the virtual_ptr "
+                                   "that the definition received dispatches "
+                                   "as " + class_name(rec.args[p].probe) +
+                                   ", the object is a " + class_name(t[vi]));
+                        }
+                        ++vi;
+                    }
+                }
                 if (focus.args && g_log.size() == 1) {
                     // each virtual argument: the caller's object seen as the
                     // definition's class; each int passes through
@@ -479,6 +505,7 @@ Outcome run_case(const json& c, const std::string& prop) {
         std::vector<int> d2v = c.value("defs2_m1v", std::vector<int>());
         eng.clear_definitions();
         eng.register_late(late);
+        eng.register_probe_defs([&](int k) { return k != left_out; });
         if (!late.empty()) {
             o.classes.push_back("classes_added_before_second_update");
         }
